@@ -72,9 +72,14 @@ class Ctx:
         eng.event_hook = event_hook
         segments = []     # loop-body path segments that ended at a back edge: (ep, func, head, state, entry label)
 
+        callsnaps = []
+
         def hook(kind, st_, fr, bi, *a):
             if kind == 'backedge':
                 segments.append(dict(ep=cur[0], func=fr.func, head=bi, st=st_, entry=eng.entry_name))
+            elif kind == 'call' and fr.func == 'screen::Screen::resize':
+                callee, args, t = a
+                callsnaps.append(dict(caller=fr.func, callee=callee, st=st_.fork(), args=list(args), entry=eng.entry_name))
             return None
         eng.hooks = [hook]
         t0 = time.time()
@@ -84,7 +89,7 @@ class Ctx:
         eng.event_hook = None
         eng.hooks = []
         self._screen_run = dict(engine=eng, results=results, wall=time.time() - t0, entry_points=eps, events=events,
-                                segments=segments)
+                                segments=segments, callsnaps=callsnaps)
         return self._screen_run
 
     def yield_sites(self, prog=None):
